@@ -649,8 +649,15 @@ func main() {
 		hist := map[string]int{}
 		if *only != "" {
 			for i := 0; i < *cases; i++ {
-				hist["client-"+*only]++
-				fmt.Fprintf(&b, "case %d\nclife tcp %d %d %d %s %d\n", i, r.Pick(1, 2, 4), r.Intn(2), r.Pick(2, 3, 5), *only, r.Intn(2))
+				m, proto := *only, "tcp"
+				if m == "all" { // client lives of every mode
+					m = []string{"stop", "peerclose", "localclose", "wake", "zone"}[i%5]
+					if m != "zone" {
+						proto = []string{"tcp", "unix", "udp"}[r.Intn(3)]
+					}
+				}
+				hist["client-"+m]++
+				fmt.Fprintf(&b, "case %d\nclife %s %d %d %d %s %d\n", i, proto, r.Pick(1, 2, 4), r.Intn(2), r.Pick(2, 3, 5), m, r.Intn(2))
 			}
 			os.Stdout.WriteString(b.String())
 			fmt.Fprintf(os.Stderr, "DIST %v\n", hist)
